@@ -315,7 +315,7 @@ def cases(tier, seed):
                             timeout=60 if q else 300, max_paths=8, feas_timeout=3))
     for fn, N, kw in FUNCS + ([] if q else FUNCS_T):
         for cplx in (False, True):
-            if cplx and (kw.get('nsym') or (q and fn in ('arburg', 'aryule') and kw.get('p') == 2)):
+            if cplx and (kw.get('nsym') or (q and fn in ('arburg', 'aryule') and kw.get('p') == 2) or (fn == 'minvar' and kw.get('m') == 3)):
                 continue
             tag = "%s:%s:N=%d:%s" % (fn, 'cx' if cplx else 're', N, ",".join("%s=%s" % kv for kv in sorted(kw.items())))
             out.append(Case("function:" + tag, case_function, dict(fn=fn, cplx=cplx, N=N, kw=kw), timeout=120 if q else 600,
